@@ -229,6 +229,23 @@ claim('C19',
       'symbolic normal-form comparison against formula templates + parity analysis + table/guard extraction',
       'DESIGN.md §4 C19')
 
+claim('C09',
+      'Static analysis (kernel abstract interpretation): F1 focal apply - the window buffer receives data[ky, kx] at '
+      '[ky-y+half_rows, kx-x+half_cols] (identity orientation, exact index forms), under exactly the in-raster test '
+      '(rows vs row extent, columns vs column extent) and kernel == 1 at the same position, window loops y+-k0//2 / '
+      'x+-k1//2 with each half size from its own kernel axis, the buffer is refilled with NaN inside the per-cell '
+      'loops before the copy, the result is reducer(buffer), all cells visited; F2 focal mean - nanmean over the '
+      'clipped 3x3 slice with axis-correct clamps, excluded cells copied through under the complementary guard, '
+      'NaN-aware exclusion test, `passes` applications on a float copy; F3 convolution - sum over the full window of '
+      'kernel[w0+ii-i, w1+jj-j]*data[ii,jj] (correlation orientation), interior loop bounds, NaN-initialised; F4 each '
+      'statistic name maps to the NaN-ignoring reducer of that name (range = nanmax - nanmin, resolved through helper '
+      'calls); F5 the hotspot decision table is evaluated exactly on every threshold cell of z for both signs (0, '
+      '+-90, +-95, +-99 at 1.65/1.96/2.58, odd in z), z = (kernel mean - global mean)/global std on both backends; F6 '
+      'kernels validated. User-supplied reducers themselves are not analysed.',
+      'Trusted: numba compiles kernels as written; np.nan* reducers ignore NaN; the halo / chunking side is C01.',
+      'symbolic interpretation of window index maps and guards + exhaustive threshold-cell enumeration',
+      'DESIGN.md §4 C09')
+
 ALL = ['C%02d' % i for i in range(1, 20)]
 
 
